@@ -4563,3 +4563,7 @@ mod tests {
         assert!(!result);
     }
 }
+
+#[cfg(all(test, saito_verif))]
+#[path = "/verif/replay/in_crate/blockchain.rs"]
+mod verif_replay;
